@@ -407,7 +407,7 @@ func checkC16(r *Run) {
 					}
 				})
 			case rm != nil && f == rm.KeepAlive:
-				c.ruleKeepAliveReaction(r4, rm, "R-C16-4")
+				// judged once below (also when the call is missing altogether)
 			default:
 				r4.Bad(key, in.Pos(), "SetErrorOnce is called from %s: only the reader goroutine and the keep-alive goroutine may record the connection error", FuncName(f))
 			}
@@ -415,6 +415,7 @@ func checkC16(r *Run) {
 	}
 	c.ruleServeNeverNil(r3)
 	if rm != nil {
+		c.ruleKeepAliveReaction(r4, rm, "R-C16-4")
 		c.ruleKeepAliveCtx(r4, rm)
 	}
 	// --- R-C16-5
@@ -476,8 +477,18 @@ func (c *Ctx) ruleKeepAliveReaction(rr *RuleRep, m *reconnModel, tag string) {
 		return
 	}
 	if tag != "R-C16-4" {
-		// C13 only needs: watched client is this iteration's, and a failure closes it
-		rr.OK(key, clCall.Pos(), "%s: KeepAlive(own client) != nil => Close(own client) on every path", tag)
+		// C13 / C09 need: watched client is this iteration's, a failure closes it — and the closed connection then reports a
+		// non-nil Err(), or the loop takes the end for a graceful one and never redials. That holds when the goroutine records
+		// KeepAlive's error before closing, or else when the reader goroutine records whatever non-nil error serve ended with.
+		recorded := seCall != nil && c.Resolve(seCall.Call.Args[0]) == watched && c.errOrigin(seCall.Call.Args[1]) == ssa.Value(kaCall) &&
+			Dominated(g, clCall, func(x ssa.Instruction) bool { return x == ssa.Instruction(seCall) }, PathQ{})
+		if !recorded {
+			if why := c.readerDropsServeError(); why != "" {
+				rr.Bad(key+"/redial", clCall.Pos(), "after a keep-alive failure the connection is closed without recording the failure, and %s: Err() is nil after Done(), the reconnect loop takes the ping timeout for a graceful end and never establishes a new connection", why)
+				return
+			}
+		}
+		rr.OK(key, clCall.Pos(), "%s: KeepAlive(own client) != nil => Close(own client) on every path, with a non-nil error recorded", tag)
 		return
 	}
 	if seCall == nil || c.Resolve(seCall.Call.Args[0]) != watched {
@@ -497,4 +508,64 @@ func (c *Ctx) ruleKeepAliveReaction(rr *RuleRep, m *reconnModel, tag string) {
 		return
 	}
 	rr.OK(key, seCall.Pos(), "%s: KeepAlive(own client) != nil => SetErrorOnce(own client, err) then Close(own client)", tag)
+}
+
+// readerDropsServeError: the reader goroutine (the closure of BaseClient.Connect that calls serve) records, as the connection
+// error, a value that can be nil although serve returned a non-nil error. Returns a description, or "" when it cannot.
+func (c *Ctx) readerDropsServeError() string {
+	conn := c.Method("BaseClient", "Connect")
+	serve := c.Method("BaseClient", "serve")
+	setErr := c.Method("BaseClient", "SetErrorOnce")
+	if conn == nil || serve == nil {
+		return "the reader goroutine was not found"
+	}
+	for _, g := range withClosures(conn) {
+		var sv *ssa.Call
+		var recs []ssa.Value
+		var recAt []ssa.Instruction
+		eachInstr(g, func(in ssa.Instruction) {
+			if c.isCallTo(in, serve) {
+				sv = in.(*ssa.Call)
+			}
+			if k, ok := in.(*ssa.Call); ok && setErr != nil && c.StaticCalleeOf(&k.Call) == setErr && len(k.Call.Args) == 2 {
+				recs = append(recs, k.Call.Args[1])
+				recAt = append(recAt, in)
+			}
+			if st, ok := in.(*ssa.Store); ok {
+				if _, isErr := isFieldAddr(st.Addr, "BaseClient", "err"); isErr {
+					recs = append(recs, st.Val)
+					recAt = append(recAt, in)
+				}
+			}
+		})
+		if sv == nil {
+			continue
+		}
+		if len(recs) == 0 {
+			return "the reader goroutine does not record the error serve ended with"
+		}
+		nilE := nilEdges(g, sv)
+		for _, v := range recs {
+			for _, lf := range phiLeaves(v, nil) {
+				if c.Resolve(lf.V) == ssa.Value(sv) || lf.V == ssa.Value(sv) {
+					continue
+				}
+				// any other value (the Close error, nil, …) may only enter where serve's error was nil
+				ok := false
+				if lf.Pred != nil && len(lf.Pred.Instrs) > 0 {
+					last := lf.Pred.Instrs[len(lf.Pred.Instrs)-1]
+					for _, e := range nilE {
+						if DominatedByEdge(g, last, e.B, e.K, PathQ{}) {
+							ok = true
+						}
+					}
+				}
+				if !ok {
+					return "the reader goroutine can replace the non-nil error serve ended with by " + describeVal(c.Resolve(lf.V))
+				}
+			}
+		}
+		return ""
+	}
+	return "the reader goroutine was not found"
 }
